@@ -407,7 +407,9 @@ impl<'a> ParseScd<'a> for WriteMemStacked {
             }
             let length = cursor.read_bytes_le()?;
             lengths.push(length);
-            to_read -= 4;
+            to_read = to_read.checked_sub(4).ok_or_else(|| {
+                Error::InvalidPacket("SCD length of WriteMemStackedAck must be a multiple of 4".into())
+            })?;
         }
 
         Ok(Self { lengths })
